@@ -23,6 +23,15 @@ def fuzz(workers, runs, **kw):
 NOT_CLAIMED = {}
 
 PROPS = {
+    "C11": dict(
+        level="exploration",
+        technique="stateful simulation-based property testing: generated register / change / cancel / RST / withheld-ACK / handler-error / delete histories against a libcoap server on a virtual network; temporal invariants over the wire trace against a registration-entry model",
+        level_text="Generated histories of 3..30 operations over 1..3 observable resources and 1..4 scripted observers with per-datagram loss, duplication and delay and virtual time jumps beyond the session timeout.",
+        level_note="Trusted base: sim/sim.cc, the entry model in props/C11.cc. Notifications larger than one block are covered through C09's Block2 machinery only for plain GET; TCP observers are not generated.",
+        quick=rc(12, 15000),
+        thorough=rc(14, 120000),
+        **SIM,
+    ),
     "C09": dict(
         level="exploration",
         technique="simulation-based property testing: libcoap client and server perform Block1/Block2 transfers over a virtual network with generated sizes, modes and per-datagram faults; byte-exact body / tiling / token / MTU / release-count oracle from handler logs and the wire trace",
